@@ -746,7 +746,9 @@ def verify_case(T, case, timeout_ms=None, want=None, exclude=None):
         out.append(ob_nr)
     if ob_ml.queries:
         out.append(ob_ml)
-    for (E, nm, cond) in case.raises(env):
+    with C.activate(paths[0].ctx):
+        clause_list = list(case.raises(env))
+    for (E, nm, cond) in clause_list:
         if not want("raises." + nm):
             continue
         short = "raises.%s.only-when" % nm
@@ -791,7 +793,7 @@ def verify_case(T, case, timeout_ms=None, want=None, exclude=None):
 
     # ---- cover: some returning path is feasible
     obc = mkob("cover.returns", "cover")
-    ok = any(c[2] is True for c in case.raises(env))  # contract says: always raises
+    ok = any(c[2] is True for c in clause_list)  # contract says: always raises
     for p in ([] if ok else rets):
         v, s = solve.check_sat([alg.lift(a) for a in _path_assumptions(p, mk, [])], timeout_ms)
         _merge(obc, v)
